@@ -91,6 +91,30 @@ def recintConvModel (op : String) (n : Nat) (a : List Int) : Option (List Int) :
   | "cvs_back", [z] => some (List.replicate 4 (rint_to_mpz (ofNat n (z % (Bn n : Int)).toNat)))
   | _, _ => none
 
+/-- the `rint<K>` wrappers: the arguments are signed values, the model works on their two's-complement images -/
+def recintSignedModel (op : String) (n t : Nat) (a : List Int) : Option (List Int) :=
+  let I (x : Int) : RU n := ofNat n (x % (Bn n : Int)).toNat
+  let rd {k : Nat} (r : RU k) : Int := if 2 * val r < Bn k then (val r : Int) else (val r : Int) - Bn k
+  match op, a with
+  | "sadd", [b, c] | "saddop", [b, c] => some [rd (s_add (I b) (I c))]
+  | "smul", [b, c] | "smulop", [b, c] => some [rd (s_mul t (I b) (I c))]
+  | "saddeq", [b, c] => let x := rd (s_add (I b) (I c)); let y := rd (s_mul t (I b) (I c)); some [x, x, y, y]
+  | "ssub", [b, c] => some (List.replicate 4 (rd (s_sub (I b) (I c))))
+  | "sneg", [b] => some [rd (s_neg (I b)), rd (s_neg (I b)), rd (s_not (I b))]
+  | "sbit", [b, c] => let r := [rd (land (I b) (I c)), rd (lor (I b) (I c)), rd (lxor (I b) (I c))]; some (r ++ r)
+  | "saddmul", [x, b, c] => some [rd (s_addmul t (I x) (I b) (I c))]
+  | "scmp", [x, y] => let k := s_cmp (I x) (I y)
+      some (k :: [decide (k < 0), decide (k ≤ 0), decide (k > 0), decide (k ≥ 0), decide (k = 0), decide (k ≠ 0)].map bi)
+  | "slmul", [b, c] => some [rd (s_lmul t (I b) (I c))]
+  | "slsq", [b] => some [rd (s_lsquare t (I b))]
+  | "sext", [b] => some [rd (s_ext (I b))]
+  | "sdivq", [x, y] => some [rd (s_divq t (I x) (I y))]
+  | "sdivr", [x, y] => some [rd (s_divr t (I x) (I y))]
+  | "sdivop", [x, y] | "sdiveq", [x, y] => some [rd (s_divq t (I x) (I y)), rd (s_divr t (I x) (I y))]
+  | "sshl", [b, d] => some (List.replicate 2 (rd (s_shl (I b) d.toNat)))
+  | "sshr", [b, d] => some (List.replicate 2 (rd (s_shr (I b) d.toNat)))
+  | _, _ => none
+
 /-- mixed operands: `mx_<form> K 0 cls ty x w y = rt res…` -/
 def recintMixedLine (line : String) (op : String) (args res : List String) : String :=
   match parseAll args, parseAll res with
@@ -143,7 +167,10 @@ def recintLine (line : String) : String :=
           | none => if res == ["EXC"] then s!"DIFF kind=SPEC model=- | {line.trimAscii.toString}" else "BAD result | " ++ line
           | some ir =>
             let specOk := chk ir
-            let model := if op.startsWith "cv" || op == "cmpsl" then recintConvModel op (K - 6) a else recintModel op (K - 6) t (a.map Int.toNat)
+            let model := if op.startsWith "cv" || op == "cmpsl" then recintConvModel op (K - 6) a
+                         else match recintSignedModel op (K - 6) t a with
+                           | some r => some r
+                           | none => recintModel op (K - 6) t (a.map Int.toNat)
             let modelOk := match model with | none => true | some mr => mr == ir
             if specOk && modelOk then "OK"
             else
